@@ -430,6 +430,21 @@ func runMyRawClient(conn net.Conn, script []Stmt, results []StmtResult, o myRawO
 			}
 			continue
 		}
+		if st.Direct {
+			// MariaDB: statement id -1 names the last statement prepared on the connection
+			args, err := myEncodeArgs(st.Args, true, nil)
+			if err != nil {
+				return fmt.Errorf("statement %d: %w", i, err)
+			}
+			body := []byte{0xff, 0xff, 0xff, 0xff, 0x00, 1, 0, 0, 0}
+			if err := c.command(0x17, append(body, args...)); err != nil {
+				return fmt.Errorf("statement %d: %w", i, err)
+			}
+			if err := c.readResult(res, true, o); err != nil {
+				return fmt.Errorf("statement %d (direct execution): %w", i, err)
+			}
+			continue
+		}
 		// with reexec a statement text seen before in the session is not prepared again: the statement
 		// is executed with the new values and without repeating the types (an application that prepares
 		// once, binds its buffers once and executes per row)
@@ -471,6 +486,10 @@ func runMyRawClient(conn net.Conn, script []Stmt, results []StmtResult, o myRawO
 			if len(st.Args) > 0 {
 				prepared[sig] = id
 			}
+		}
+		if st.PrepareOnly {
+			res.Ready = true
+			continue
 		}
 		execs := 1
 		if o.reexec && len(st.Args) > 0 && strings.HasPrefix(strings.ToUpper(strings.TrimSpace(st.SQL)), "SELECT") {
